@@ -235,10 +235,11 @@ Definition get_identifier (c : ctx) : M bytes :=
   | _ => panic "parser.rs: get_identifier: text.as_bytes()[0]"
   end.
 
-(* strip the surrounding quotes: text[1..len-1] when the text starts with a quote and has >= 2 bytes *)
+(* strip the surrounding quotes: text[1..len-1] when the text has >= 2 bytes, starts with a quote and ends with one
+   (a String token of the tokenizer always does; the raw text of an A2ML block, which is a String token too, may not) *)
 Definition strip_quotes (text : bytes) : bytes :=
   match text with
-  | q :: r => if aeq q dq && Nat.leb 2 (length text) then removelast r else text
+  | q :: r => if aeq q dq && Nat.leb 2 (length text) && aeq (last r "a"%char) dq then removelast r else text
   | [] => text
   end.
 
